@@ -619,6 +619,7 @@ pub fn oracle(ctx: &mut Ctx) {
     st.add("corpus_files", files.len() as u64);
     let stride = if ctx.tier_thorough { 1 } else { 7 };
     let mut w = Worker::spawn();
+    let bin_dir: Option<std::path::PathBuf> = if crate::cli::binary_available() { Some(crate::cli::work_dir("c05-bin")) } else { None };
     let (selected, total) = selected_mutations(&mut rng, &files, stride, ctx.n, false, usize::MAX);
     st.add("mutations_available", total as u64);
     {
@@ -637,6 +638,25 @@ pub fn oracle(ctx: &mut Ctx) {
                 "{{\"entry\": {}, \"file\": {}, \"mutation\": {}, \"options\": {}, \"input_hex\": {}}}",
                 jstr(entry), jstr(fname), jstr(&mname), jstr(&opts.show()), jstr(&hex(&m))
             );
+            // one case in twelve also through the file / standard-input entry point, by way of the executable: it ends with
+            // one of its three exit statuses, never by a signal (a panic is an abort in release builds)
+            if let Some(dir) = &bin_dir {
+                if rng.chance(1, 12) {
+                    let _ = std::fs::create_dir_all(dir);
+                    let _ = std::fs::remove_file(dir.join("out.png"));
+                    std::fs::write(dir.join("in.png"), &m).unwrap();
+                    let mut args: Vec<String> = crate::cli::opts_to_flags(&opts, rng.next_u64()).unwrap_or_default();
+                    args.push("-q".into());
+                    let stdin = rng.bool();
+                    args.extend(["--out".into(), "out.png".into(), if stdin { "-".into() } else { "in.png".into() }]);
+                    let r = if stdin { crate::cli::run_bin_stdin(dir, &args, &m) } else { crate::cli::run_bin(dir, &args) };
+                    st.count("cases_through_the_executable");
+                    match r.status {
+                        Some(0) | Some(1) | Some(3) => st.count(&format!("executable_exit_{}", r.status.unwrap())),
+                        other => st.fail("abort", format!("the executable ended with {:?} (killed by a signal, or an exit status of its own invention) on {} of {} ({})", other, mname, fname, args.join(" ")), replay.clone()),
+                    }
+                }
+            }
             match w.ask(entry, &opts, &m) {
                 None => {
                     let status = w.kill();
